@@ -600,3 +600,100 @@ func CloneV(v ref.V) ref.V {
 	}
 	return out
 }
+
+// Mono rewrites the full-range numeric leaves (int32, uint32, int64, uint64,
+// float, double) as a function of the row index: an arithmetic progression
+// that wraps around in the width of the type, started at 0 (mode 0), at the
+// smallest signed value (mode 1) or just below a boundary (mode 2), rotated by
+// rot rows. Depending on the start the sequence is monotone in the signed order
+// and not in the unsigned one, or the reverse, so an order claimed with the
+// comparator of the wrong signedness is false.
+func Mono(root *ref.Node, rows []ref.V, mode, fine, rot int, desc bool) {
+	n := len(rows)
+	if n == 0 {
+		return
+	}
+	for i := range rows {
+		k := (i + rot) % n
+		if desc {
+			k = n - 1 - k
+		}
+		rows[i] = CloneV(rows[i])
+		for ci := range root.Children {
+			if ci < len(rows[i].F) {
+				monoNode(&root.Children[ci], &rows[i].F[ci], k, n, mode, fine)
+			}
+		}
+	}
+}
+
+func monoValue(l ref.Leaf, k, n, mode, fine int) (int64, bool) {
+	switch l.ID {
+	case "int32", "uint32":
+		step := uint32(1<<32/uint64(n+1)) + 1
+		if fine > 0 {
+			step = uint32(fine)
+		}
+		start := []uint32{0, 1 << 31, 1<<31 - uint32(n/2)*step}[mode%3]
+		return int64(int32(start + uint32(k)*step)), true
+	case "int64", "uint64":
+		step := uint64(1<<63/uint64(n+1))*2 + 1
+		if fine > 0 {
+			step = uint64(fine)
+		}
+		start := []uint64{0, 1 << 63, 1<<63 - uint64(n/2)*step}[mode%3]
+		return int64(start + uint64(k)*step), true
+	case "float":
+		// ascending floats from negative to positive: their bit patterns are not monotone as integers
+		f := float32(k-[]int{0, n / 2, n}[mode%3]) * 1.5
+		if fine == 0 {
+			f *= 1e30
+		}
+		return int64(int32(math.Float32bits(f))), true
+	case "double":
+		f := float64(k-[]int{0, n / 2, n}[mode%3]) * 1.5
+		if fine == 0 {
+			f *= 1e300
+		}
+		return int64(math.Float64bits(f)), true
+	}
+	return 0, false
+}
+
+func monoNode(nd *ref.Node, v *ref.V, k, n, mode, fine int) {
+	if v.Null {
+		return
+	}
+	if nd.Rep == "rep" {
+		for i := range v.L {
+			monoContent(nd, &v.L[i], k, n, mode, fine)
+		}
+		return
+	}
+	monoContent(nd, v, k, n, mode, fine)
+}
+
+func monoContent(nd *ref.Node, v *ref.V, k, n, mode, fine int) {
+	switch nd.Kind {
+	case "leaf":
+		if x, ok := monoValue(ref.ParseLeaf(nd.Leaf), k, n, mode, fine); ok {
+			v.I = x
+		}
+	case "group":
+		for i := range nd.Children {
+			if i < len(v.F) {
+				monoNode(&nd.Children[i], &v.F[i], k, n, mode, fine)
+			}
+		}
+	case "list":
+		for i := range v.L {
+			monoNode(&nd.Children[0], &v.L[i], k, n, mode, fine)
+		}
+	case "map":
+		for i := range v.L {
+			if len(v.L[i].F) > 1 {
+				monoNode(&nd.Children[1], &v.L[i].F[1], k, n, mode, fine)
+			}
+		}
+	}
+}
